@@ -206,20 +206,22 @@ pub fn jobs(tier: Tier, seed: u64) -> Vec<Job> {
     groups.push(g_sym);
     // ---- lax half: the same laws for lax diagrams (lax tier), compared after strictification
     let mut g_lax = vec![];
-    let lshs: Vec<LaxShape> = super::lax::small_shapes(tier).into_iter().filter(|s| s.refs() <= 3 && s.n <= 2).collect();
+    let lshs: Vec<LaxShape> = super::lax::small_shapes(tier).into_iter().filter(|s| s.refs() <= 4 && s.n <= 2).collect();
     let mut ltriples = vec![];
     for f in &lshs {
         for g in &lshs {
             for h in &lshs {
-                if f.b == g.a && g.b == h.a && f.refs() + g.refs() + h.refs() <= 7 {
+                if f.b == g.a && g.b == h.a && f.refs() + g.refs() + h.refs() <= 8 {
                     ltriples.push((f.clone(), g.clone(), h.clone()));
                 }
             }
         }
     }
     Rng::new(seed ^ 9).shuffle(&mut ltriples);
-    ltriples.sort_by_key(|(f, g, h)| (f.b == 0 || g.b == 0) as u8 + (f.q + g.q + h.q == 0) as u8);
-    for (f, g, h) in ltriples.into_iter().take(if tier == Tier::Quick { 600 } else { 6000 }) {
+    // every triple that glues along two non-empty boundaries, then a sample of the others
+    ltriples.sort_by_key(|(f, g, h)| (f.b == 0) as u8 + (g.b == 0) as u8);
+    let glued = ltriples.iter().filter(|(f, g, _)| f.b > 0 && g.b > 0).count();
+    for (f, g, h) in ltriples.into_iter().take(glued + if tier == Tier::Quick { 600 } else { 6000 }) {
         let name = format!("lax laws {} {} {}", f.show(), g.show(), h.show());
         let gen = move || {
             let (rf, rg, rh) = (gen_lax(&f, "f"), gen_lax(&g, "g"), gen_lax(&h, "h"));
